@@ -50,8 +50,16 @@ pub fn text_of(case: &Value) -> Vec<u8> {
     let mut t = Vec::new();
     let lines = case["lines"].as_array().unwrap();
     for (k, l) in lines.iter().enumerate() {
-        t.extend(line_bytes(k, l["len"].as_u64().unwrap() as usize, l["kind"].as_str().unwrap()));
+        let mut lb = line_bytes(k, l["len"].as_u64().unwrap() as usize, l["kind"].as_str().unwrap());
+        if case["cr"] == "inner" && lb.len() > 4 {
+            // a CR in the middle of the line (ASCII position: the prefix "L<k>:" is ASCII)
+            lb[2] = b'\r';
+        }
+        t.extend(lb);
         if k + 1 < lines.len() || case["final_newline"].as_bool().unwrap() {
+            if case["cr"] == "crlf" {
+                t.push(b'\r');
+            }
             t.push(b'\n');
         }
     }
@@ -199,6 +207,13 @@ impl Engine for C17 {
         case["calls"] = json!(calls);
         case["mode"] = json!(mode);
         case["errors"] = json!(errors);
+        if i % 10 == 3 {
+            // texts with carriage returns: whether CR belongs to the terminator is not stated, so the
+            // only demand is that the result does not depend on the chunking (see execute)
+            case["cr"] = json!(r.pick(&["crlf", "crlf", "inner"]));
+            case["mode"] = json!("direct");
+            case["errors"] = json!([]);
+        }
         if i % 200 == 199 {
             // the same input through a real pipe into the real binary
             case["mode"] = json!("real");
@@ -242,17 +257,33 @@ impl Engine for C17 {
 
         // observed: Ok(line bytes) per call, then possibly an error
         let mut got: Vec<Vec<u8>> = vec![];
+        let mut after: Vec<Vec<u8>> = vec![];
         let mut failed: Option<String> = None;
         match mode {
             "direct" => {
                 let arena = Arena::new(64 << 20).unwrap();
                 let prompt = NsValue::Str(ArenaCow::borrowed(""));
-                for _ in 0..calls {
+                let mut k = 0;
+                while k < calls {
+                    k += 1;
                     match <naijascript::sys::stdin as Stdin>::read_line(&prompt, &arena) {
-                        Ok(s) => got.push(s.as_bytes().to_vec()),
+                        Ok(s) => {
+                            if failed.is_some() {
+                                after.push(s.as_bytes().to_vec());
+                            } else {
+                                got.push(s.as_bytes().to_vec());
+                            }
+                        }
                         Err(e) => {
+                            if failed.is_some() {
+                                break;
+                            }
                             failed = Some(format!("{e}"));
-                            break;
+                            // a caller may retry after EAGAIN / EINTR; after a hard error it would not
+                            let retryable = matches!(e.raw_os_error(), Some(libc::EAGAIN | libc::EINTR));
+                            if !retryable {
+                                break;
+                            }
                         }
                     }
                 }
@@ -316,6 +347,51 @@ impl Engine for C17 {
         res.trace_hash = h;
         res.nontrivial = sim.past_newline > 0 || sim.max_count > 8192 || split_mb > 0;
 
+        // texts with CR: only chunking independence is demanded - the same text delivered all at once
+        if !case["cr"].is_null() {
+            res.count("texts_with_carriage_returns", 1);
+            drain_carry_over();
+            fake_libc::install_stdin(StdinSim { data: text.clone(), ..StdinSim::default() });
+            let arena = Arena::new(64 << 20).unwrap();
+            let prompt = NsValue::Str(ArenaCow::borrowed(""));
+            let mut whole: Vec<Vec<u8>> = vec![];
+            for _ in 0..calls {
+                match <naijascript::sys::stdin as Stdin>::read_line(&prompt, &arena) {
+                    Ok(s) => whole.push(s.as_bytes().to_vec()),
+                    Err(_) => break,
+                }
+            }
+            fake_libc::take_stdin();
+            if let Some(k) = (0..calls).find(|k| got.get(*k) != whole.get(*k)) {
+                let show = |v: Option<&Vec<u8>>| v.map(|b| format!("{} bytes {:?}", b.len(), String::from_utf8_lossy(&b[..b.len().min(16)]))).unwrap_or_else(|| "nothing".into());
+                return res.violation(
+                    "chunking-dependent",
+                    format!("call {k}: {} with the planned pieces, {} when the same text arrives at once", show(got.get(k)), show(whole.get(k))),
+                );
+            }
+            return res;
+        }
+        // after a retryable error the caller went on: nothing that was returned may be wrong data -
+        // the lines continue with the one the failed call was reading, or with the one after it
+        if !after.is_empty() {
+            res.count("calls_continued_after_a_retryable_error", after.len() as u64);
+            let k = got.len();
+            let same = |from: usize| after.iter().enumerate().all(|(j, a)| expected.get(from + j).is_some_and(|e| e == a) || (from + j >= expected.len() && a.is_empty()));
+            if !same(k) && !same(k + 1) {
+                let j = (0..after.len()).find(|j| expected.get(k + j) != after.get(*j)).unwrap_or(0);
+                return res.violation(
+                    "wrong-line-after-error",
+                    format!(
+                        "call {} failed (retryable); the call {} after it returned {:?}, which is neither line {} nor line {} of the input",
+                        k,
+                        j + 1,
+                        String::from_utf8_lossy(&after[j][..after[j].len().min(24)]),
+                        k + j,
+                        k + j + 1
+                    ),
+                );
+            }
+        }
         // oracle
         let err_expected = injected > 0;
         for (k, g) in got.iter().enumerate() {
